@@ -185,7 +185,7 @@ def x86_multiply(aprog, variant, square, timeout_ms=60000):
         # carry / truncation quotient non-zero), then the whole negated identity with real products, last the linear model (may not replay)
         lost = [c[2] for c in X.lost_carries if len(c) > 2]
         mism = lambda e: L.evaluate(got, e) != L.evaluate(want, e)
-        env = (L.concretised_search(mism, lost, 40, 4000, 120) or L.wrap_search(mism, lost, 5000, 60, True)
+        env = (L.concretised_search(mism, lost, 40, 8000, 120) or L.wrap_search(mism, lost, 8000, 60, True)
                or nia_model(L, z3.Not(ident)) or L.model_for(z3.Not(ident)) or {})
         ce["a"] = hex(model_inputs(L, env, "a", 6))
         ce["b"] = hex(model_inputs(L, env, "a" if square else "b", 6))
